@@ -204,7 +204,7 @@ class SHAPE:
     """index = ((body index) * n_helpers + helper) * n_spellings + spelling"""
     SPELL = (('a', ''), ('_a', ''), ('a', '?'), ('a', '!'), ('t', 'T'), ('_t', 'T'))    # 'T' = template t{p} used as t{X}
 
-    def __init__(self, n, spellings=None, ignore=(), extra_terms=(), zlit='z'):
+    def __init__(self, n, spellings=None, ignore=(), extra_terms=(), zlit='z', terms=None):
         """zlit: the anonymous string literal of the menu; 'x' makes it coincide with the named terminal X (one
         terminal used by name -- kept -- and as a literal -- filtered)."""
         self.SZ = ('lit', zlit)
@@ -217,6 +217,7 @@ class SHAPE:
         self.nh = len(shape_helpers(('ref', 'a')))
         self.size = len(self.bodies) * self.nh * len(self.spell)
         self.ignore, self.extra_terms = tuple(ignore), tuple(extra_terms)
+        self.terms = tuple(terms) if terms else SHAPE_TERMS
 
     def __len__(self):
         return self.size
@@ -237,7 +238,7 @@ class SHAPE:
             if h or sp:
                 return None
             rules = [Rule('start', '', None, ((body, None),))]
-            return Grammar(rules, SHAPE_TERMS + self.extra_terms, self.ignore)
+            return Grammar(rules, self.terms + self.extra_terms, self.ignore)
         alts = shape_helpers(self_ref, self.SZ)[h]
         if name.startswith('_'):
             if any(al for _, al in alts):
@@ -249,4 +250,4 @@ class SHAPE:
         else:
             helper = Rule(name, mod, None, alts)
         rules = [Rule('start', '', None, ((body, None),)), helper]
-        return Grammar(rules, SHAPE_TERMS + self.extra_terms, self.ignore)
+        return Grammar(rules, self.terms + self.extra_terms, self.ignore)
